@@ -98,10 +98,10 @@ CLAIMED = {
              'the code may look at the stack only through last(); the result is the stack in order; segments() yields the segments in order (C12) — so normalized_segments() is the specified sequence, by induction. '
              '(b) The in-place rewrite: its collecting loop appends "/" exactly before every segment but the first and then exactly that segment\'s bytes (every CFG path of one iteration), so the text written is shield ++ join(sequence, "/"); '
              'over ALL buffers the result is a valid value of the same type, its decomposition is "path = rewritten window, every other component unchanged" (marked-language inclusion), absolute stays absolute and relative stays relative, '
-             'the "./" shield is written exactly in the documented cases, window accounting and exact tiling hold; all entry points (normalize, Path ==/cmp/hash) go through the one normalising iterator. (c) The normalised COPY (PathImpl::normalized) is the same kind of fold: it starts from the EMPTY path of the kind of self (path-sensitive rule on the is_absolute test), hands every item of segments() of self, in order, to symbolic_push on the buffer it returns (loop or Iterator::fold form), keeps the flag of the LAST step, and pushes the EMPTY segment exactly under "flag and the buffer is not empty"; the step, symbolic_push, is executed over all segment strings by Engine S ("." nothing/true, ".." one pop/true, other one push of that segment/false).',
+             'the "./" shield is written exactly in the documented cases, window accounting and exact tiling hold; all entry points (normalize, Path ==/cmp/hash) go through the one normalising iterator. (c) The normalised COPY (PathImpl::normalized) is decided in either of two forms. As a REWRITE (the form of the repaired tree): Engine S executes it with the LAST segment of self as the text under analysis (all byte strings; last() also answers None), the copy and its handle opaque: the value returned is the copy of self, normalised in place exactly once before anything else (the in-place rules above), and the EMPTY segment is pushed exactly when the last segment is "." or ".." and the normalised copy is not empty (the trailing "/" RFC 3986 5.2.4 leaves). As a FOLD of segments() through symbolic_push (the form before the repair): start from the EMPTY path of the kind of self, every item in order, flag of the last step, guarded final push — and the step must not leave out an empty segment on an empty path unless the fold excludes that case (this is how F12 is reported). Every public in-place entry point (PathMut::normalize and PathBuf::normalize of both families) reaches PathMutImpl::normalize not through the copy.',
         design_ref='DESIGN.md §3 Engine D (D1–D3), §4 C09, §10.13, §10.15',
-        note='NOT decided: that the copy and the iterator agree as VALUES (their steps agree case by case; the composition with the list semantics of push/pop under C10 is an argument, not a check), idempotence as an equality of values, the spill paths of the inline buffers. The induction step '
-             '(fold = specification when the steps agree) is the usual one and is not mechanised. Genuine defect F5 (no shield in normalize) was repaired by a fix: commit.',
+        note='NOT decided: idempotence as an equality of values, the spill paths of the inline buffers. The induction step '
+             '(fold = specification when the steps agree) is the usual one and is not mechanised. Genuine defects F5 (no shield in normalize) and F12 (normalized() dropped an empty segment that becomes the first one) were repaired by fix: commits.',
         technique='scanner-style abstract execution of one loop iteration x class automaton (fold step) + per-iteration CFG rule (join) + path-sensitive effect analysis with regular language closure (static analysis)',
         engine='S+D+A',
     ),
